@@ -187,7 +187,7 @@ func mutate(rd *core.Rand, s []byte) []byte {
 }
 
 func run(r *core.Run) {
-	r.Rule = "decoders without a Lean model (SQL parser of both dialects incl. re-serialisation and redaction, pg_query, encryptor/censor YAML, ASN.1 key-ring reader) on seeds from the repository (configs/, tests/, statement tables) × 8 mutation operators + deep nesting + garbage, each under a timeout and a heap watchdog; plus a sweep of the modelled envelope decoders on the same garbage compared with the model; non-trivial = non-empty input; distinct by input bytes. Exploration (search support), not a theorem."
+	r.Rule = "SQL tokenizer (modelled, proved): boundary table for every lexical class × dialects mysql/ansi/postgresql (± other default dialect for the nested /*! */ tokenizer, ± multi), Acra's parser test tables ± one mutation, lexeme soup and random bytes – real Scan and Lex loops (cut after |input|+2 calls ⇒ `stuck`) against the model, oracles: no panic, not stuck, ≤ |input|+1 tokens, monotone positions, payload bound; non-trivial = non-empty input, distinct by input bytes. Decoders without a Lean model (SQL parser of both dialects incl. re-serialisation and redaction, pg_query, encryptor/censor YAML, ASN.1 key-ring reader) on seeds from the repository (configs/, tests/, statement tables) × 8 mutation operators + deep nesting + garbage, each under a timeout and a heap watchdog; plus a sweep of the modelled envelope decoders on the same garbage compared with the model; non-trivial = non-empty input; distinct by input bytes. Exploration (search support), not a theorem."
 	rd := r.Rand
 	guard := func(op string, in []byte, line string, isolated bool) {
 		var out string
@@ -207,9 +207,17 @@ func run(r *core.Run) {
 		r.Check(out != core.Panic, "panic:"+op, what+" panics: "+firstLine(core.LastPanic))
 		r.Check(out != "timeout" && out != "oom", "hang:"+op, what+" does not terminate / exhausts memory: "+out)
 	}
+<<<<<<< HEAD
 	// 0. regression corpus + boundary table: MySQL version comments (`/*!NNNNN text */`), which the tokenizer
 	// of Acra's own SQL parser hands to ExtractMysqlComment – on every path that parses client SQL
 	versionComments(r, guard)
+=======
+	// 0. the SQL tokenizer against its Lean model (proof level; see tokens.go)
+	runTokens(r)
+	if os.Getenv("VERIF_C14_ONLY") == "tokens" { // development aid: only the tokenizer slice
+		return
+	}
+>>>>>>> wt-btok
 	// 1. SQL
 	var sql [][]byte
 	for _, s := range sqlSeeds {
